@@ -42,8 +42,11 @@ Range(s) == {s[i] : i \in 1..Len(s)}
 
 ---------------------------------------------------------------------------------
 (* abstract: from the statement *)
-SortedSeq(S) == [i \in 1..Cardinality(S) |->
-                   CHOOSE n \in S : Cardinality({m \in S : Rank(m) < Rank(n)}) = i - 1]
+(* all nodes in rank order (computed once), and the members of S in that order *)
+AllByRank == LET slot == [k \in 1..Mod |-> IF \E i \in Node : Rank(i) = k - 1
+                                           THEN CHOOSE i \in Node : Rank(i) = k - 1 ELSE 0]
+             IN SelectSeq(slot, LAMBDA n : n # 0)
+SortedSeq(S) == SelectSeq(AllByRank, LAMBDA n : n \in S)
 Select(S, hh, rr, ss) ==
   IF Cardinality(S) = 1 THEN CHOOSE n \in S : TRUE
   ELSE SortedSeq(S)[((ss + hh + rr) % Cardinality(S)) + 1]
@@ -81,7 +84,7 @@ Perms(S) == IF S = {} THEN {<<>>}
 Listings == UNION {Perms(S) : S \in (SUBSET Node) \ {{}}}
 
 Out == LET ch == Chain(Range(listing), h, r, hs, local, nfail) IN
-       ToJson([listing |-> listing, order |-> SortedSeq(Node), h |-> h, r |-> r, hs |-> hs,
+       ToJson([listing |-> listing, order |-> AllByRank, h |-> h, r |-> r, hs |-> hs,
                local |-> local, nfail |-> nfail,
                first |-> ch[1], chain |-> ch, winner |-> Winner(ch, local, nfail)])
 
